@@ -152,8 +152,19 @@ func genInheritance(t *rapid.T) (SetCase, map[string]bool) {
 		}
 		definedAbove[b] = true
 	}
+	var partial *Tmpl
+	if g.pick(3, "incpart") == 0 {
+		// the layout includes a partial that has a block of its own named like a block of the
+		// chain: it is not on the extends chain, so it renders its own definition
+		g.stats["layout-includes-partial-with-same-block-name"] = true
+		partial = &Tmpl{Name: "part", Body: []*S{Text("P["), {K: "block", Name: bname(0), Body: []*S{Text("part-own-b0")}}, Text("]")}}
+		baseBody = append(baseBody, &S{K: "include", E: Str("part")})
+	}
 	baseBody = append(baseBody, Text("|end"))
 	set := TSet{{Name: tname(base), Body: baseBody}}
+	if partial != nil {
+		set = append(set, partial)
+	}
 	for level := base - 1; level >= 0; level-- {
 		parent := tname(level + 1)
 		var ext *E
@@ -217,7 +228,7 @@ func genInheritance(t *rapid.T) (SetCase, map[string]bool) {
 	return sc, g.stats
 }
 
-const c10Rule = "extends chains of 1-5 templates over 1-4 blocks placed at top level, inside a loop, inside a conditional or inside another block of the base layout; every level independently omits, overrides with text/prints/conditionals, overrides with an empty body, or overrides and calls parent() (before, after, twice, inside an if), or introduces a new block inside its override which more derived templates override in turn; parent names static or dynamic (variable, concatenation, conditional); children carry text and comments outside blocks; non-trivial = chain length >= 3, or an empty override, or parent(), or a block inside a loop/conditional/other block; distinct by source set"
+const c10Rule = "extends chains of 1-5 templates over 1-4 blocks placed at top level, inside a loop, inside a conditional or inside another block of the base layout; every level independently omits, overrides with text/prints/conditionals, overrides with an empty body, or overrides and calls parent() (before, after, twice, inside an if), or introduces a new block inside its override which more derived templates override in turn; parent names static or dynamic (variable, concatenation, conditional); children carry text and comments outside blocks; the layout may include a partial with a block named like one of the chain's; non-trivial = chain length >= 3, or an empty override, or parent(), or a block inside a loop/conditional/other block; distinct by source set"
 
 func TestC10Inheritance(t *testing.T) {
 	r := NewRec(t, "C10", c10Rule)
